@@ -28,16 +28,19 @@ Property theorems (the obligations):
 * `scan_ends_with_eof`  — the last token is `Eof`, no earlier one is, at most `src.length` tokens precede it;
 * `scan_lines_monotone` — token line numbers are non-decreasing, start at 1, and are at most
                           1 + the number of `'\n'` in the source;
-* `scan_lines_exact_partial` (with `nextToken_exact`) — if the scan produces no `Illegal` and no `Byte` token, every
+* `scan_lines_exact_partial` (with `nextToken_exact`) — for sources whose token stream contains no `Illegal` token, every
                           token's line is EXACTLY 1 + the number of `'\n'` up to and including the token's last character
-                          (newlines in whitespace, comments, string literals and char literals are all counted);
+                          (newlines in whitespace, comments, string literals, char literals and byte literals are all
+                          counted);
 * `skip_phase_exits`, `readWhile_exits`, `readUntilQuote_exits`, `readStringBody_exits`,
   `skipLine_exits`, `skipWhitespace_exits`, `skipComments_exits` — the fuel of every inner loop
   suffices: each loop returns at the exit condition of the Rust loop it models.
 
-The line counter is advanced in three places, as in the code: `skip_whitespace` (a newline between tokens), the loop of
-`read_string` (a newline inside a string literal, closed or not — after the break test, on the character just read) and
-`read_char_token` (a raw newline as the character behind the opening quote, before the second `read_char`).  Each
+The line counter is advanced in four places, as in the code: `skip_whitespace` (a newline between tokens), the loop of
+`read_string` (a newline inside a string literal, closed or not — after the break test, on the character just read),
+`read_char_token` (a raw newline as the character behind the opening quote, before the second `read_char`) and the
+byte-literal branch of `read_identifier` (a raw newline as the byte behind `b'`, before the second `read_char`, on the legal
+and the illegal path alike).  Each
 increment is paired with a newline passed (`Reach.nl`, `Skip.nl`, `Adv.nl`, `Next.nl`: the counter grows by at most the
 number of newlines passed; `StrLoop.nl`, `Exa`: by exactly that number).
 
@@ -160,7 +163,7 @@ structure Reach (s0 s : S) : Prop where
   input : s.input = s0.input
   pos : s0.position ≤ s.position
   bd : s.position ≤ s.input.size
-  /-- the line number only grows (inside a string literal, and on a raw newline as the character of a char literal) -/
+  /-- the line number only grows (inside a string literal, and on a raw newline as the character of a char / byte literal) -/
   line : s0.line ≤ s.line
   /-- … by at most the number of newlines passed -/
   nl : s.line + nlBefore s0 ≤ s0.line + nlBefore s
@@ -349,7 +352,8 @@ theorem readString_good (s : S) (h : Inv s) (hc : s.ch ≠ nul) : Good s (readSt
   simp only []
   split <;> exact good_tok r1 _ _
 
-/-- the two steps of `read_char_token` behind the opening quote: `if the_char == "\n" { line += 1 }; read_char()` -/
+/-- the two steps of `read_char_token` behind the opening quote: `if the_char == "\n" { line += 1 }; read_char()` — and
+of the byte-literal branch of `read_identifier` behind `b'`: `if the_byte == '\n' { line += 1 }; read_char()` -/
 theorem ReachS.charStep {s0 s1 : S} (r : ReachS s0 s1) (hlt : s1.position < s1.input.size) {c : Char}
     (hc : s1.at s1.position = some c) :
     ReachS s0 (if (c == '\n') = true then { s1 with line := s1.line + 1 } else s1).readChar := by
@@ -417,8 +421,8 @@ theorem readIdentifier_good (s : S) (h : Inv s) (hc : isIdentFirst s.ch = true) 
     · next hlt =>
       obtain ⟨c, hc⟩ := at_isSome (s := s2) (Nat.lt_of_not_le hlt)
       simp only [hc]
-      have r3 := r2.step (Nat.lt_of_not_le hlt)
-      generalize s2.readChar = s3 at r3
+      have r3 := r2.charStep (Nat.lt_of_not_le hlt) hc
+      generalize (if (c == '\n') = true then { s2 with line := s2.line + 1 } else s2).readChar = s3 at r3
       split
       · next hq3 =>
         have hq3' : s3.ch ≠ nul := by
@@ -1120,13 +1124,21 @@ example : tokens (scan "'\n' x") = some
 -- an unterminated string counts its lines too; an illegal char token counts only a newline right behind the quote
 example : tokens (scan "\"a\nb\n") = some [⟨"Illegal", "a\nb\n", 3⟩, ⟨"Eof", "", 3⟩] := by decide
 example : tokens (scan "'\nx\ny' z") = some [⟨"Illegal", "'\nx\ny'", 2⟩, ⟨"Identifier", "z", 2⟩, ⟨"Eof", "", 2⟩] := by decide
+-- a raw newline as the byte of a byte literal is counted too: the `Byte` token and the token after it are on line 2
+example : tokens (scan "b'\n' x") = some
+    [⟨"Byte", "\n", 2⟩, ⟨"Identifier", "x", 2⟩, ⟨"Eof", "", 2⟩] := by decide
+example : tokens (scan "let x = b'\n';\ny") = some
+    [⟨"Let", "let", 1⟩, ⟨"Identifier", "x", 1⟩, ⟨"Assign", "=", 1⟩, ⟨"Byte", "\n", 2⟩, ⟨"Semicolon", ";", 2⟩,
+     ⟨"Identifier", "y", 3⟩, ⟨"Eof", "", 3⟩] := by decide
+-- an illegal byte token counts only a newline right behind `b'` (like the illegal char token above)
+example : tokens (scan "b'\nx\ny' z") = some [⟨"Illegal", "b'\nx\ny'", 2⟩, ⟨"Identifier", "z", 2⟩, ⟨"Eof", "", 2⟩] := by decide
 
 /-! ## exact line numbers (`scan_lines_exact_partial`)
 
-With the newlines inside string literals and a raw newline as the character of a char literal counted, the only
-characters `next_token` consumes without looking whether they are newlines are: the tail of an illegal char/byte token
-(`read_until_quote`) and the byte of a byte literal (`b'⏎'`).  Outside these paths — excluded below by the type of the
-token produced (`Illegal`, `Byte`) — the line counter grows by EXACTLY the number of newlines passed. -/
+With the newlines inside string literals and a raw newline as the character of a char literal or as the byte of a byte
+literal (`b'⏎'`) counted, the only characters `next_token` consumes without looking whether they are newlines are those of
+the tail of an illegal char/byte token (`read_until_quote`).  Outside this path — excluded below by the type of the token
+produced (`Illegal`) — the line counter grows by EXACTLY the number of newlines passed. -/
 
 /-- `s` was reached from `s0` with exact bookkeeping: the line counter grew by exactly the number of newlines passed -/
 structure Exa (s0 s : S) : Prop where
@@ -1220,9 +1232,9 @@ unless the token is `Illegal`, the bookkeeping is exact, the token carries the f
 def GoodXQ (s : S) (r : Res) : Prop :=
   ∀ t s', r = .tok t s' → t.ttype ≠ "Illegal" → Exa s s' ∧ t.line = s'.line ∧ s'.ch ≠ '\n'
 
-/-- exactness of the other readers (identifiers, numbers): unless the token is `Illegal` or `Byte` -/
+/-- exactness of the other readers (identifiers and byte literals, numbers): unless the token is `Illegal` -/
 def GoodX (s : S) (r : Res) : Prop :=
-  ∀ t s', r = .tok t s' → t.ttype ≠ "Illegal" → t.ttype ≠ "Byte" → Exa s s' ∧ t.line = s'.line
+  ∀ t s', r = .tok t s' → t.ttype ≠ "Illegal" → Exa s s' ∧ t.line = s'.line
 
 theorem goodXQ_tok {s0 s : S} (e : Exa s0 s) (hc : s.ch ≠ '\n') (ty lit : String) : GoodXQ s0 (.tok (mk s ty lit) s) := by
   intro t s' h _
@@ -1241,7 +1253,7 @@ theorem goodXQ_panic (s0 : S) : GoodXQ s0 .panic := by
   cases h
 
 theorem goodX_tok {s0 s : S} (e : Exa s0 s) (ty lit : String) : GoodX s0 (.tok (mk s ty lit) s) := by
-  intro t s' h _ _
+  intro t s' h _
   injection h with h1 h2
   subst h1 h2
   exact ⟨e, rfl⟩
@@ -1251,12 +1263,6 @@ theorem goodX_illegal (s0 s : S) (lit : String) : GoodX s0 (.tok (mk s "Illegal"
   injection h with h1 h2
   subst h1
   exact absurd rfl hi
-
-theorem goodX_byte (s0 s : S) (lit : String) : GoodX s0 (.tok (mk s "Byte" lit) s) := by
-  intro t s' h _ hb
-  injection h with h1 h2
-  subst h1
-  exact absurd rfl hb
 
 theorem goodX_panic (s0 : S) : GoodX s0 .panic := by
   intro t s' h
@@ -1311,6 +1317,7 @@ theorem readCharToken_goodX (s : S) (h : Inv s) (hq : s.ch = '\'') : GoodXQ s (r
       · exact goodXQ_illegal _ _ _
       · exact goodXQ_panic _
 
+/-- an identifier or keyword passes no newline; a byte literal `b'…'` counts a raw newline as its byte -/
 theorem readIdentifier_goodX (s : S) (h : Inv s) : GoodX s (readIdentifier s) := by
   have e1 := readWhile_exa isIdentRemaining (by decide) (s.input.size + 1) s h
   simp only [readIdentifier]
@@ -1318,7 +1325,28 @@ theorem readIdentifier_goodX (s : S) (h : Inv s) : GoodX s (readIdentifier s) :=
   split
   · exact goodX_panic _
   · split
-    · repeat' (first | exact goodX_panic _ | exact goodX_illegal _ _ _ | exact goodX_byte _ _ _ | split)
+    · next hq =>
+      have hq1 : s1.ch = '\'' := by
+        simp only [Bool.and_eq_true, beq_iff_eq] at hq; exact hq.1
+      have e2 := e1.step (by rw [hq1]; decide)
+      generalize s1.readChar = s2 at e2
+      split
+      · split
+        · exact goodX_illegal _ _ _
+        · exact goodX_panic _
+      · next hlt =>
+        obtain ⟨c, hc⟩ := at_isSome (s := s2) (Nat.lt_of_not_le hlt)
+        simp only [hc]
+        have e3 := e2.trans (charStep_exa e2.inv hc)
+        generalize (if (c == '\n') = true then { s2 with line := s2.line + 1 } else s2).readChar = s3 at e3
+        split
+        · next hq3 =>
+          have hq3' : s3.ch = '\'' := by
+            simp only [Bool.and_eq_true, beq_iff_eq] at hq3; exact hq3.1
+          exact goodX_tok (e3.step (by rw [hq3']; decide)) _ _
+        · split
+          · exact goodX_illegal _ _ _
+          · exact goodX_panic _
     · exact goodX_tok e1 _ _
 
 theorem numTail_goodX {s0 s : S} (e : Exa s0 s) (pos n : Nat) (isHex isOct isBin isFloat : Bool) :
@@ -1440,10 +1468,10 @@ structure NextX (s : S) (t : Token) (s' : S) : Prop where
   line : t.line = s'.line
 
 def GoodN (s : S) (r : Res) : Prop :=
-  ∀ t s', r = .tok t s' → t.ttype ≠ "Illegal" → t.ttype ≠ "Byte" → NextX s t s'
+  ∀ t s', r = .tok t s' → t.ttype ≠ "Illegal" → NextX s t s'
 
 theorem goodN_tok {s s' : S} (e : Exa s s') {tk : Token} (hl : tk.line = s'.line) : GoodN s (.tok tk s') := by
-  intro t s1 h _ _
+  intro t s1 h _
   injection h with h1 h2
   subst h1 h2
   exact ⟨e.ex, hl⟩
@@ -1458,7 +1486,7 @@ theorem goodN_of_goodXQ {s s2 : S} (k : Exa s s2) {r : Res} : GoodXQ s2 r →
     GoodN s (match r with
       | .tok t s' => Res.tok t s'.readChar
       | .panic => Res.panic) := by
-  intro g t s' e hi _
+  intro g t s' e hi
   cases r with
   | panic => cases e
   | tok t0 s0 =>
@@ -1468,12 +1496,12 @@ theorem goodN_of_goodXQ {s s2 : S} (k : Exa s s2) {r : Res} : GoodXQ s2 r →
     exact ⟨((k.trans x).step hc).ex, hl⟩
 
 theorem goodN_of_goodX {s s2 : S} (k : Exa s s2) {r : Res} (g : GoodX s2 r) : GoodN s r := by
-  intro t s' e hi hb
-  obtain ⟨x, hl⟩ := g _ _ e hi hb
+  intro t s' e hi
+  obtain ⟨x, hl⟩ := g _ _ e hi
   exact ⟨(k.trans x).ex, hl⟩
 
-/-- **nextToken_exact**: unless the token produced is `Illegal` or `Byte`, one call of `next_token` advances the line
-counter by exactly the number of newlines it passes, and the token carries the line number of the returned state -/
+/-- **nextToken_exact**: unless the token produced is `Illegal`, one call of `next_token` advances the line counter by
+exactly the number of newlines it passes, and the token carries the line number of the returned state -/
 theorem nextToken_exact (s : S) (h : Inv s) : GoodN s (nextToken s) := by
   have hb := (skip_phase_exits s h).2
   unfold nextToken
@@ -1530,7 +1558,7 @@ inductive ExactFrom : S → List Token → Prop
       ExactFrom s' rest → ExactFrom s (t :: rest)
 
 theorem run_exact (fuel : Nat) : ∀ (s : S) (acc ts : List Token), Inv s → s.line = 1 + nlBefore s →
-    run fuel s acc = .ok ts → (∀ t ∈ ts, t.ttype ≠ "Illegal" ∧ t.ttype ≠ "Byte") →
+    run fuel s acc = .ok ts → (∀ t ∈ ts, t.ttype ≠ "Illegal") →
     ∃ out, ts = acc ++ out ∧ ExactFrom s out := by
   induction fuel with
   | zero => intro s acc ts _ _ e; rw [run_zero] at e; exact Run.noConfusion e
@@ -1541,25 +1569,25 @@ theorem run_exact (fuel : Nat) : ∀ (s : S) (acc ts : List Token), Inv s → s.
     split at e
     · injection e with e
       have hm : t ∈ ts := by rw [← e]; simp
-      have hx := nextToken_exact s h t s' et (hok t hm).1 (hok t hm).2
+      have hx := nextToken_exact s h t s' et (hok t hm)
       refine ⟨[t], by rw [← e]; simp, ExactFrom.cons et ?_ (ExactFrom.nil _)⟩
       have := hx.ex; have := hx.line; omega
     · have h3 := nx.nl
       obtain ⟨out0, e0, -⟩ := run_lines fuel s' (acc ++ [t]) ts nx.inv (by omega) e
       have hm : t ∈ ts := by rw [e0]; simp
-      have hx := nextToken_exact s h t s' et (hok t hm).1 (hok t hm).2
+      have hx := nextToken_exact s h t s' et (hok t hm)
       have hl' : s'.line = 1 + nlBefore s' := by have := hx.ex; omega
       obtain ⟨out, e', hf⟩ := ih s' (acc ++ [t]) ts nx.inv hl' e hok
       refine ⟨t :: out, by rw [e']; simp, ExactFrom.cons et ?_ hf⟩
       have := hx.line; omega
 
-/-- **scan_lines_exact_partial**: if the scan of `src` produces no `Illegal` token and no `Byte` token (the two paths on
-which the scanner passes characters without counting newlines: the tail of an illegal char/byte token, and the byte of
-`b'…'`), every token's line number is exact — `1 +` the number of newlines in the source up to and including the
-token's last character (newlines in whitespace, in comments, inside string literals and as the character of a char
-literal are all counted; the `Str` token of a multi-line literal carries the line the literal ends on) -/
+/-- **scan_lines_exact_partial**: for sources whose token stream contains no `Illegal` token (the one path on which the
+scanner passes characters without counting newlines is the tail of an illegal char/byte token), every token's line number
+is exact — `1 +` the number of newlines in the source up to and including the token's last character (newlines in
+whitespace, in comments, inside string literals, as the character of a char literal and as the byte of a byte literal
+`b'⏎'` are all counted; the `Str` token of a multi-line literal carries the line the literal ends on) -/
 theorem scan_lines_exact_partial (src : String) (ts : List Token) (e : scan src = .ok ts)
-    (hok : ∀ t ∈ ts, t.ttype ≠ "Illegal" ∧ t.ttype ≠ "Byte") : ExactFrom (init src) ts := by
+    (hok : ∀ t ∈ ts, t.ttype ≠ "Illegal") : ExactFrom (init src) ts := by
   obtain ⟨out, e', hf⟩ := run_exact (src.length + 2) (init src) [] ts (init_inv src)
     (by simp [nlBefore]) e hok
   rw [List.nil_append] at e'
